@@ -152,6 +152,29 @@ def check_exactly_once(chk, font, cfg, fmt, srcs, ctx, replay, want_order=None):
         yield gi, reached[0], exp, order
 
 
+def base_extents(chk, font, fmt, gname, ctx, replay):
+    """COLRv0: the base glyph's own outline (the extents contour) spans its layers - whatever the outline flavour."""
+    if not fmt.endswith("colr_0") or "COLR" not in font or gname not in font["COLR"].ColorLayers:
+        return
+    from fontTools.pens.boundsPen import ControlBoundsPen
+
+    gs = font.getGlyphSet()
+    pen = ControlBoundsPen(gs)
+    gs[gname].draw(pen)
+    bb = pen.bounds
+    lb = []
+    for layer in font["COLR"].ColorLayers[gname]:
+        p2 = ControlBoundsPen(gs)
+        gs[layer.name].draw(p2)
+        if p2.bounds:
+            lb.append(p2.bounds)
+    if not lb:
+        return
+    ub = [min(b[0] for b in lb), min(b[1] for b in lb), max(b[2] for b in lb), max(b[3] for b in lb)]
+    if bb is None or bb[0] > ub[0] + 1.5 or bb[1] > ub[1] + 1.5 or bb[2] < ub[2] - 1.5 or bb[3] < ub[3] - 1.5:
+        chk.violation(f"{ctx} [{fmt}]: base glyph {gname} spans {bb}, its layers span {ub}", replay)
+
+
 def run(chk):
     quick = chk.tier == "quick"
     chk.rule = (
@@ -201,9 +224,13 @@ def run(chk):
                     if "too small" not in p:
                         chk.violation(p, replay)
                 # base glyph extents cover all layers
-                if "glyf" in font:
-                    g = font["glyf"][gname]
-                    bb = (g.xMin, g.yMin, g.xMax, g.yMax) if g.numberOfContours else None
+                if True:   # glyf, CFF and CFF2 alike: what the outline of the base glyph spans
+                    from fontTools.pens.boundsPen import ControlBoundsPen
+
+                    gs = font.getGlyphSet()
+                    pen = ControlBoundsPen(gs)
+                    gs[gname].draw(pen)
+                    bb = pen.bounds
                     ub = [min(s.shapes[0].bounds[i] for s in got) for i in (0, 1)] + [max(s.shapes[0].bounds[i] for s in got) for i in (2, 3)]
                     if bb is None or bb[0] > ub[0] + 1.5 or bb[1] > ub[1] + 1.5 or bb[2] < ub[2] - 1.5 or bb[3] < ub[3] - 1.5:
                         chk.violation(f"forest {k} [{fmt}]: base glyph bounds {bb} do not cover the layers' bounds {ub}", replay)
@@ -223,8 +250,8 @@ def run(chk):
         except Exception as e:
             chk.violation(f"valid sources fail to build ({fmt}): {type(e).__name__}: {str(e)[:160]}", replay)
             continue
-        for _ in check_exactly_once(chk, font, cfg, fmt, srcs, f"random {k}", replay):
-            pass
+        for _gi, _gname, _exp, _order in check_exactly_once(chk, font, cfg, fmt, srcs, f"random {k}", replay):
+            base_extents(chk, font, fmt, _gname, f"random {k}", replay)
     # coincidence-seeking: axis-aligned copies on an integer lattice, so that reused shapes are placed through
     # PaintScale[Uniform][AroundCenter] / PaintTranslate (their gettransform() is what glyf / COLRv0 use to place a copy)
     for k in range(36 if quick else 600):
@@ -242,8 +269,8 @@ def run(chk):
         except Exception as e:
             chk.violation(f"valid sources fail to build ({fmt}): {type(e).__name__}: {str(e)[:160]}", replay)
             continue
-        for _ in check_exactly_once(chk, font, cfg, fmt, srcs, f"lattice {k}", replay):
-            pass
+        for _gi, _gname, _exp, _order in check_exactly_once(chk, font, cfg, fmt, srcs, f"lattice {k}", replay):
+            base_extents(chk, font, fmt, _gname, f"lattice {k}", replay)
     # every kind of reuse transform, solid fills, in glyf and the three COLRv0 flavours
     for k, (label, glyphs) in enumerate(S.reuse_fill_grid(solid_only=True)):
         for fmt in (["glyf", "glyf_colr_0", "cff_colr_0", "cff2_colr_0"][k % 4], "glyf"):
@@ -257,8 +284,8 @@ def run(chk):
             except Exception as e:
                 chk.violation(f"valid sources fail to build ({fmt}): {type(e).__name__}: {str(e)[:160]}", replay)
                 continue
-            for _ in check_exactly_once(chk, font, cfg, fmt, srcs, f"reuse grid [{label}]", replay):
-                pass
+            for _gi, _gname, _exp, _order in check_exactly_once(chk, font, cfg, fmt, srcs, f"reuse grid [{label}]", replay):
+                base_extents(chk, font, fmt, _gname, f"reuse grid [{label}]", replay)
     chk.assumptions += ["a layer 'places' a source outline when their sampled overlap is >= 60% (one-to-one matching)"]
 
 
